@@ -486,7 +486,10 @@ class MerchantEngine:
                         if isinstance(result, list):
                             for item in result:
                                 if item:
-                                    resolved.add(str(item).strip().lower())
+                                    # An element that is only blanks is no tag (like a blank scalar)
+                                    stripped = str(item).strip()
+                                    if stripped:
+                                        resolved.add(stripped.lower())
                         else:
                             stripped = str(result).strip()
                             if stripped:
